@@ -19,7 +19,9 @@ EXTENDS Integers, TLC
 
 None == -1
 Ports  == {"auth_pw", "auth_pk", "auth_genpw", "ldap_bind", "ldap_session", "ldap_token", "unix_auth", "radius",
-           "unix_token", "bearer", "api", "cert", "o2_authorise", "o2_refresh", "o2_introspect"}
+           "unix_token", "bearer", "api", "cert", "o2_authorise", "o2_refresh", "o2_introspect",
+           \* previously issued login token of a service account; the anonymous account as subject
+           "bearer_st", "bearer_an", "auth_anon", "ldap_anon_bind", "ldap_token_an", "ldap_session_an"}
 Askers == {"self", "rad", "ux", "anon", "internal"}
 
 Within(t, vf, ex)  == (vf = None \/ vf <= t) /\ (ex = None \/ t <= ex)
@@ -29,7 +31,8 @@ Outside(t, vf, ex) == (vf # None /\ t < vf) \/ (ex # None /\ ex < t)
 L1Ok(o) == Outside(o.t, o.vf, o.ex) => ~o.rel
 
 \* ------------------------------------------------------------------ L2
-\* `self` can only ask with its own token, which is refused outside the window
+\* `self` can only ask with its own token, which is refused outside the window (for every port the
+\* window in the observation is the window of the account the port is about; `self` is that account)
 AskerHasIdentity(asker, t, vf, ex) == asker # "self" \/ Within(t, vf, ex)
 \* shipped ACPs: idm_acp_radius_servers grants name/uuid/spn/displayname/memberof/radius_secret only;
 \* the account itself (idm_acp_self_read) may read its own window
